@@ -57,7 +57,7 @@ Tags(S) == {b[2] : b \in S}
 \* the call returns: its net effect is the FaceLife action of that operation
 TRet ==
   /\ IsEvent("Ret") /\ incall = Ev.op
-  /\ CASE Ev.op = "make_face"    -> MakeFace(Ev.arg % 8, tkind, IF Ev.arg >= 16 THEN "opsnr" ELSE IF Ev.arg >= 8 THEN "file" ELSE "ops") /\ (phase' = "live") = (Ev.ok = 1)
+  /\ CASE Ev.op = "make_face"    -> MakeFace(Ev.arg % 8, tkind, IF Ev.arg >= 24 THEN "opsc" ELSE IF Ev.arg >= 16 THEN "opsnr" ELSE IF Ev.arg >= 8 THEN "file" ELSE "ops") /\ (phase' = "live") = (Ev.ok = 1)
        [] Ev.op = "label"        -> LabelQuery
        [] Ev.op = "face_query"   -> FaceQuery
        [] Ev.op = "featval"      -> FeatVal(Ev.arg)
@@ -70,7 +70,7 @@ TRet ==
        [] Ev.op = "justify"      -> JustifySeg
        [] Ev.op = "destroy_seg"  -> DestroySeg
        [] Ev.op = "destroy_face" -> DestroyFace
-  /\ (src' = "ops" => /\ Tags(outb) = held'                       \* what is still borrowed is what the protocol says
+  /\ (src' \in {"ops", "opsc"} => /\ Tags(outb) = held'                       \* what is still borrowed is what the protocol says
                        /\ Cardinality(outb) = Cardinality(held'))  \* ... one buffer per table
   \* purity: the result of a call is a function of its arguments only (C08), and not of the face options or
   \* the table source either (C10)
